@@ -140,15 +140,17 @@ def r2(run):
 def r3(run):
     b = C.body_or_fail(run, C.APPEND)
     sends = [c for c in q.live_calls(b, C.BROADCAST_SEND) if C.frame_typed(c)]
-    ins = q.live_calls(b, C.INSERT_FRAME)
+    from .store_shared import store_points
+    pts = store_points(b)
+    ins = [c for (c, es) in pts]
     run.exact("broadcast sends in append", len(sends), 1, b.sp)
-    run.floor("insert_frame calls in append", len(ins), 1, b.sp)
+    run.floor("store points (insert_frame / spliced batch commit) in append", len(ins), 1, b.sp)
     if not sends or not ins:
         return
     s = sends[0]
     for i in ins:
         run.ob("%s|no-store-after-broadcast" % C.APPEND, not q.reaches(b, s.bb, i.bb), s.sp, "insert_frame is not reachable after the broadcast", reason="broadcast-before-store")
-    ok_edges = [e for i in ins for e in q.call_result_edges(b, i, ok=True)]
+    ok_edges = [e for (c, es) in pts for e in es]
     eph_skip = []
     guards = c09.ephemeral_guards(b)   # edges where ttl != Ephemeral
     for (bb, t, lab) in guards:
